@@ -33,7 +33,7 @@ def finding_fixed(key):
 
 
 SHAPES = {"M": (6, 6), "x": (21,), "y": (21,), "R1": (3, 3), "R2": (3, 3), "A": (3, 3),
-          "B": (3, 3), "Mi": (6, 6), "xi": (21,), "Ti": (3, 3, 3, 3), "Ri": (3, 3)}
+          "B": (3, 3), "Mi": (6, 6), "xi": (21,), "Ti": (3, 3, 3, 3), "Ri": (3, 3), "mag": (4,)}
 
 
 def bundle(rng, family=None):
@@ -47,7 +47,10 @@ def bundle(rng, family=None):
                 # integer-valued inputs, handed over in every dtype / layout presentation
                 Mi=G.int_sym6(rng), xi=rng.integers(-200, 201, size=21).astype(float),
                 Ti=rng.integers(-200, 201, size=(3, 3, 3, 3)).astype(float),
-                Ri=rng.integers(-2, 3, size=(3, 3)).astype(float))
+                Ri=rng.integers(-2, 3, size=(3, 3)).astype(float),
+                # magnitudes: a scale exponent (everything is re-read in units of 2^k) and one odd entry for M / x
+                mag=np.array([float(rng.choice(G.MAG_EXPONENTS)), float(rng.choice(G.MIXED_TINY)),
+                              float(rng.integers(0, 21)), float(rng.integers(0, 21))]))
 
 
 def encode(b):
@@ -142,8 +145,59 @@ def oracle(T, b):
         if max(abs(i1 - e[0]), abs(i2 - e[1]) / sa, abs(i3 - e[2]) / sa ** 2) > 1e-8 * sa:
             f.append("invariants differ from the elementary symmetric functions of the eigenvalues")
         f += oracle_presentations(T, b)
+        f += oracle_magnitudes(T, b)
     except Exception as e:  # noqa: BLE001
         f.append(f"a public function raised {type(e).__name__}: {e}")
+    return f
+
+
+def oracle_magnitudes(T, b):
+    """C11 does not depend on the unit the numbers are expressed in: the same clauses on inputs scaled by 2^k (exact
+    homogeneity: scaling by a power of two commutes with every floating-point operation) and on inputs with one entry of a
+    very different magnitude (round trips entry by entry, relative)."""
+    f = []
+    if "mag" not in b:
+        return f
+    k, t, p1, p2 = (float(v) for v in b["mag"])
+    sc = 2.0 ** int(k)
+    M, x, R1 = b["M"].copy(), b["x"].copy(), b["R1"].copy()
+
+    def rel(a, c, tol=1e-13):
+        a, c = np.asarray(a, dtype=float), np.asarray(c, dtype=float)
+        return a.shape == c.shape and bool(np.all(np.abs(a - c) <= tol * np.maximum(np.abs(a), np.abs(c))))
+
+    C = T.voigt_to_elastic_tensor(M.copy())
+    lin = [("voigt_to_elastic_tensor", T.voigt_to_elastic_tensor, M), ("elastic_tensor_to_voigt", T.elastic_tensor_to_voigt, C),
+           ("voigt_matrix_to_vector", T.voigt_matrix_to_vector, M), ("voigt_vector_to_matrix", T.voigt_vector_to_matrix, x),
+           ("mono_project", T.mono_project, x), ("ortho_project", T.ortho_project, x), ("tetr_project", T.tetr_project, x),
+           ("hex_project", T.hex_project, x), ("rotate", lambda t_: T.rotate(t_, R1.copy()), C)]
+    for name, fn, arg in lin:
+        if not rel(fn(arg * sc), np.asarray(fn(arg.copy()), dtype=float) * sc):
+            f.append(f"{name} is not homogeneous: f(2^{int(k)} x) != 2^{int(k)} f(x)")
+    Cs = T.voigt_to_elastic_tensor(M * sc)
+    if not rel(T.elastic_tensor_to_voigt(Cs.copy()), M * sc):
+        f.append(f"elastic_tensor_to_voigt(voigt_to_elastic_tensor(M)) != M for M in units of 2^{int(k)}")
+    vs = T.voigt_matrix_to_vector(M * sc)
+    if abs(np.linalg.norm(vs) - np.linalg.norm(Cs)) > 1e-12 * np.linalg.norm(Cs):
+        f.append(f"norm of the 21-vector differs from the Frobenius norm of the tensor for M in units of 2^{int(k)}")
+    if not rel(T.voigt_vector_to_matrix(np.asarray(vs, dtype=float)), M * sc, 1e-12):
+        f.append(f"voigt_vector_to_matrix(voigt_matrix_to_vector(M)) != M for M in units of 2^{int(k)}")
+    # one entry of a very different magnitude
+    i, j = sorted((int(p1) % 6, int(p2) % 6))
+    Mm = M.copy()
+    Mm[i, j] = Mm[j, i] = t
+    if not rel(T.elastic_tensor_to_voigt(T.voigt_to_elastic_tensor(Mm.copy())), Mm):
+        f.append(f"elastic_tensor_to_voigt(voigt_to_elastic_tensor(M)) != M when M[{i},{j}] = {t:g}")
+    if not rel(T.voigt_vector_to_matrix(T.voigt_matrix_to_vector(Mm.copy())), Mm, 1e-12):
+        f.append(f"voigt_vector_to_matrix(voigt_matrix_to_vector(M)) != M when M[{i},{j}] = {t:g}")
+    xm = x.copy()
+    xm[int(p1)] = t
+    if not rel(T.voigt_matrix_to_vector(T.voigt_vector_to_matrix(xm.copy())), xm, 1e-12):
+        f.append(f"voigt_matrix_to_vector(voigt_vector_to_matrix(x)) != x when x[{int(p1)}] = {t:g}")
+    for p in (T.mono_project, T.ortho_project):
+        px = np.asarray(p(xm.copy()), dtype=float)
+        if not rel(p(px.copy()), px):
+            f.append(f"{p.__name__} is not idempotent when x[{int(p1)}] = {t:g}")
     return f
 
 
@@ -267,6 +321,8 @@ def run(chk):
                        "compiled vs interpreted, and the clauses of the polar theorem (orthogonal, symmetric, POSITIVE SEMI-DEFINITE, product) on the compiled result; "
                        "presentations: every kernel on integer-valued inputs as int64 / int32 / float32 / Fortran order / strided / negative strides / read-only / nested list "
                        "(value = model's value on the same numbers, or a loud refusal); "
+                       "magnitudes: every kernel on integer-valued inputs scaled by 2^k, k = -60 .. 60 (implementation vs model relative to the input scale -- no absolute floor -- and "
+                       "exact homogeneity f(2^k x) = 2^(k deg) f(x)), and on generic inputs with one entry of 3e-11 / 2^-40 / 1e-15 / 1e-30 / 1e12 (copy-like kernels entry by entry relative); "
                        "per public function of pydrex.tensors (13 kernels incl. both shapes of upper_tri_to_symmetric): seeded random "
                        "inputs -- full (triclinic) symmetric 6x6, non-symmetric 6x6, sparse-with-exact-zeros, SPD, the two built-in tensors; 4th-order tensors "
                        "with and without symmetries; Haar rotations and general matrices; 21-vectors; compiled implementation vs extracted generated code at 1e-11 "
@@ -293,6 +349,8 @@ def run(chk):
         if qk:
             chk.cov["known_tetr_integer_dtype"] = len(qk)
             chk.known_finding(f"{KF_TETR_INT}; reproduced on {len(qk)} calls, e.g. {qk[0][1]}: {qk[0][2]}")
+        # magnitudes: inputs scaled by 2^k (k = -60 .. 60) and inputs with one entry of a very different magnitude
+        bad += G.compare_magnitudes(chk, T, 2 if chk.tier == "quick" else 40, np.random.default_rng(chk.seed + 4))
         chk.cov["traces_validated_against_impl"] = chk.cov["evaluations"]
     chk.cov["disagreements"] = len(bad)
     if ok and not bad:
